@@ -1,7 +1,9 @@
 (* FormsLeavesProofs.v — C10: each hand-written leaf restated in FormsLeaves.v computes the ref-ref
    semantics `zsem` on the converted operands (value, and panic cases), ASSUMING the value-level
-   behaviour of the BigUint operations owned by the other areas (Section hypotheses H_*; to be
-   discharged by the integrator with the C01 / C02 / C03 / C07 / C12 theorems). *)
+   behaviour of the BigUint operations owned by the other areas (Section hypotheses H_*;
+   discharged for the digit-level models in inst/InstFormsOps.v with the C01 / C02 / C03 / C07 /
+   C12 theorems).  Scalars are values of a primitive type (< 2^128); the shift hypotheses are
+   stated inside the physical range of C07 ([shift_phys]). *)
 From Coq Require Import ZArith Zquot List Bool Lia.
 From BigNum Require Import Base SpecBits Forms FormsLeaves FormsProofs.
 Import ListNotations.
